@@ -160,7 +160,9 @@ def run(rep):
         for p in srt[:3]:
             variants.append(("absolute-path", None, ["ABS/" + p], [p], ()))
         reps = 2 if rep.tier == "quick" else 6
-        vjobs = [(v, i) for v in variants for i in range(reps)]
+        per_package = ("cwd-is-package", "relative-from-sibling", "import-path-alone", "import-path-from-package-dir", "rerun-over-own-output",
+                       "rerun-twice-over-own-output", "pair")
+        vjobs = [(v, i) for v in variants for i in range(1 if (rep.tier == "quick" and v[0] in per_package) else reps)]
 
         def variant_run(job):
             (name, cwd, args0, expect, drop), i = job
@@ -193,6 +195,9 @@ def run(rep):
                 # this spelling is not accepted at all (same for every package): nothing to compare
                 unsupported_spellings[name + ": " + norm_err(r["out"])[-120:]] += 1
                 continue
+            if r["rc"] != 0:
+                flag("C08/outcome-differs:" + name, "every named package is accepted when named alone, but `%s` exits %s: %s" % (cmd, r["rc"], norm_err(r["out"])[-300:]),
+                     {"cmd": cmd, "stderr": r["out"][-800:], "files": {p: runs.read_tree(os.path.join(src, p)) for p in expect[:3]}})
             for p in expect:
                 compare(p, r, name + "#" + str(i), cmd)
             stray = [q for q in pkgs if q not in expect and r["sha"][q] != "absent" and name not in ("dot-dot-dot", "import-path-pattern")]
